@@ -13,6 +13,8 @@
 //!   loop 0 proof <text>                      # proof block at the head of the loop body
 //!   proof begin: <text>
 //!   proof end: <text>
+//!   proof after <callee>: <text>              # proof block right after each statement that calls <callee> (last path segment / method name)
+//!   proof before_loop <N>: <text>            # proof block right before loop N
 //!   closure 0 binder r: Type               # closures are numbered in source order within the fn
 //!   closure 0 requires name: <expr>
 //!   closure 0 ensures name: <expr>
@@ -66,8 +68,14 @@ pub struct Shape {
     pub must_contain: bool,
 }
 
+#[derive(Debug, Clone)]
+pub enum ProofAt { AfterCall(String), BeforeLoop(usize) }
+#[derive(Debug, Clone)]
+pub struct ProofPoint { pub at: ProofAt, pub text: String }
+
 #[derive(Debug, Clone, Default)]
 pub struct FnContract {
+    pub proof_points: Vec<ProofPoint>,
     pub binder: Option<String>,
     pub attrs: Vec<String>,
     pub with: Option<String>,
@@ -212,6 +220,11 @@ pub fn parse_contracts(src: &str) -> Result<Contracts, String> {
                 match pos.trim() {
                     "end" => fc.proof_end = Some(body.trim().to_string()),
                     "begin" => fc.proof_begin = Some(body.trim().to_string()),
+                    o if o.starts_with("after ") => fc.proof_points.push(ProofPoint { at: ProofAt::AfterCall(o[6..].trim().to_string()), text: body.trim().to_string() }),
+                    o if o.starts_with("before_loop ") => {
+                        let k: usize = o[12..].trim().parse().map_err(|_| format!("line {}: loop ordinal", ln))?;
+                        fc.proof_points.push(ProofPoint { at: ProofAt::BeforeLoop(k), text: body.trim().to_string() })
+                    }
                     o => return Err(format!("line {}: unknown proof position `{}`", ln, o)),
                 }
             }
